@@ -177,6 +177,11 @@ func (bi *BasmInstance) assembler2NewBondMachine() error {
 			fmt.Println(" - " + green("constraint: ") + yellow(constraint))
 		}
 		bMach.Add_shared_objects([]string{constraint})
+		// A constraint that no shared object accepts is silently ignored there: the objects that follow
+		// would take its index and the processors attached to it would point at nothing
+		if len(bMach.Shared_objects) != i+1 {
+			return errors.New("the constraint \"" + constraint + "\" of the shared object " + so.GetValue() + " cannot be instantiated")
+		}
 		constrains[so.GetValue()] = constraint
 		soIndexes[so.GetValue()] = strconv.Itoa(i)
 	}
